@@ -12,7 +12,7 @@ ASSUMPTIONS = base.ASSUMPTIONS + ['routes are exactly those listed in the statem
                                   'indexing views are exercised on 2-D objects (x[i] is a row view; 1-D integer indexing returns a copy of the element)']
 RULE = ('HEAP lines: random histories (<=14 steps) that create objects, derive new ones by like=, fxp_like(), deepcopy (also flatten() and .T of 1-D objects), like(), conversion, +, np.add, ~, >> (trunc/keep), row indexing, strided / reversed slicing, column indexing (also of views), and then mutate one (whole write, indexed write, config change, flag-raising write, reset); '
         'after every step the observable state (format, codes, config, flags) of ALL live objects and the real sharing graph (config/status identity, np.shares_memory) are compared with the model. '
-        'INP lines: lists / nested lists / tuples / arrays of numbers and of bin/hex strings are deep-compared before and after construction (constructor, call, set_val; from_bin as function and method for unprefixed binary strings). BCF lines: every Config field x invalid values through the setter, Fxp kwargs and Config(). '
+        'INP lines: lists / nested lists / tuples / arrays of numbers and of bin/hex strings are deep-compared before and after construction (constructor, call, set_val; from_bin as function and method for unprefixed binary strings); int64/uint64 arrays of in-range integers (the storage type itself, by value with n_frac=0, raw, inferred sizes, dtype=): no shared buffer, writes on either side stay there. BCF lines: every Config field x invalid values through the setter, Fxp kwargs and Config(). '
         'non-trivial = a history with at least one derivation followed by a mutation')
 TECHNIQUE = 'Lean 4 theorems on a heap model (fresh allocation on every route except index views, no-sharing invariant by induction over histories, frame property of mutations, write-through of views) + differential correspondence of object states and sharing graphs'
 LEVEL_TEXT = ('Machine-checked on the heap model: every derivation route allocates config, status and buffer cells that no live object refers to (views - rows, strided and reversed slices, columns - share only the buffer), the pairwise-disjointness invariant is preserved by every operation along any history, no creating step changes the codes, flags or configuration of an existing object, '
@@ -133,10 +133,38 @@ def deep_eq(a, b):
     return type(a) == type(b) and a == b
 
 
+def _indep(obj, build):
+    """an object built from the array `obj` is independent of it: no shared buffer, writes on either side stay there, and two
+    objects built from the same array are independent of each other (the array already has the type the values are stored in)."""
+    before = obj.copy()
+    x = build(obj)
+    y = build(obj)
+    ok = deep_eq(obj, before) and not np.shares_memory(x.val, obj) and not np.shares_memory(x.val, y.val)
+    first = (0,) * obj.ndim
+    c0 = codes_of(x)
+    x[first] = 1 if int(obj[first]) != 1 else 2           # write on the object
+    ok = ok and deep_eq(obj, before) and codes_of(y) == c0
+    obj[first] = 3 if int(before[first]) != 3 else 4      # write on the container
+    ok = ok and codes_of(y) == c0
+    return ok
+
+
 def exec_INP(t):
     kind, payload = t[0], t[1]
     items = parse_list(payload)
     try:
+        if kind in ('iarray', 'iarray2', 'uarray', 'iarray0'):
+            # integer arrays of exactly the type codes are stored in (int64 signed / uint64 unsigned), in-range values, no scaling
+            vals = [abs(int(frac(v))) if kind == 'uarray' else int(frac(v)) for v in items]
+            dt = np.uint64 if kind == 'uarray' else np.int64
+            sg = kind != 'uarray'
+            mkobj = {'iarray': lambda: np.array(vals, dtype=dt), 'uarray': lambda: np.array(vals, dtype=dt),
+                     'iarray2': lambda: np.array([vals, vals], dtype=dt), 'iarray0': lambda: np.array(vals[0], dtype=dt)}[kind]
+            zeros = lambda o: np.zeros(o.shape, dtype=int) if o.ndim else None
+            builds = [lambda o: Fxp(o, sg, 16, 0), lambda o: Fxp(o, sg, 16, 4, raw=True), lambda o: Fxp(o, signed=sg),
+                      lambda o: Fxp(zeros(o), sg, 16, 0)(o), lambda o: Fxp(zeros(o), sg, 16, 0).set_val(o),
+                      lambda o: Fxp(zeros(o), sg, 16, 4).set_val(o, raw=True), lambda o: Fxp(o, dtype='fxp-%s24/0' % ('s' if sg else 'u'))]
+            return ['1' if all(_indep(mkobj(), b) for b in builds) else '0']
         if kind in ('list', 'tuple', 'nested', 'array', 'array2'):
             vals = [pyval(frac(v)) for v in items]
             obj = {'list': lambda: list(vals), 'tuple': lambda: tuple(vals), 'nested': lambda: [list(vals), list(vals)],
@@ -320,6 +348,8 @@ def generate(tier, rng):
         else:
             items = [tok_frac(Fraction(rng.randint(-200, 200), rng.choice([1, 1, 2, 4]))) for _ in range(rng.randint(1, 4))]
         yield 'INP %s %s' % (kind, tok_list(items))
+    for _ in range(60 if tier == 'quick' else 1500):
+        yield 'INP %s %s' % (rng.choice(['iarray', 'iarray2', 'uarray', 'iarray0']), tok_list([str(rng.randint(-200, 200)) for _ in range(rng.randint(1, 4))]))
     for key, vals in INVALID.items():
         for i in range(len(vals)):
             for where in ('setter', 'kwargs', 'config'):
